@@ -88,7 +88,8 @@ RULE = ("Model-based, two generated families over the reference tor world (snaps
         "'attacher': recording IStreamAttacher doubles (plain, async def, or a PriorityAttacher of scripted "
         "sub-attachers) installed/re-installed/replaced/removed with set_attacher at generated positions; every "
         "new connection carries a generated answer {BUILT circuit, circuit in any other state, circuit object of "
-        "a circuit that is gone, Circuit unknown to the state, non-circuit, None, DO_NOT_ATTACH, raises} x "
+        "a circuit that is gone, Circuit unknown to the state, non-circuit (truthy, or falsy: [], (), False, 0, ''), None, "
+        "DO_NOT_ATTACH, raises} x "
         "{returned at once, Deferred already fired, Deferred/awaited value delivered at a later step}; stream "
         "kinds NEW, NEWRESOLVE, *.exit targets, names that merely contain '.exit', streams first seen mid-life; "
         "one Circuit.stream_via() attempt while a user attacher is installed; a late answer may name a circuit "
@@ -136,8 +137,10 @@ ASSUMPTIONS = [
     "'reported' = at least one twisted log error event or anything printed to stdout/stderr between the "
     "delivery of the answer and the end of that step (after a garbage collection); reports for valid answers "
     "are not forbidden",
-    "non-circuit answers are truthy objects (str, int, dict); an unknown circuit is a fresh Circuit object "
-    "whose id the state does not list",
+    "non-circuit answers are a str, int, dict or tuple, and the falsy values [], (), False, 0, '' (only None "
+    "means 'no preference' - interface.py: 'you may return None in which case the Tor controller will be told "
+    "to choose'; a falsy non-None value is an invalid answer like any other: reported, nothing sent); an "
+    "unknown circuit is a fresh Circuit object whose id the state does not list",
     "tor may refuse SETCONF __LeaveStreamsUnattached (5xx) and its answers may arrive late, but in order and "
     "before any later event. What is installed is decided by the set_attacher calls that returned normally. "
     "The statement is silent on a refused install: when the refusal arrives while that same attacher object is "
@@ -514,6 +517,15 @@ class Run(object):
                              "step %d: stream %d appeared with attacher %s installed but no attacher was asked; "
                              "earlier tor had refused the install of an attacher that had already been removed when "
                              "the refusal arrived" % (self.step_no, r.sid, r.installed))
+            elif not got and self.lines_of(r.sid):
+                sent = [x[0] for x in self.lines_of(r.sid)]
+                if r.ans.endswith("non-circuit-falsy") and [x[2] for x in self.lines_of(r.sid)] == [0]:
+                    self.res.bad("falsy-invalid-answer-taken-for-no-preference",
+                                 "step %d: the attacher's answer for stream %d was an invalid falsy value (%s), not "
+                                 "None; it was not reported and %r was sent" % (self.step_no, r.sid, r.ans, sent))
+                else:
+                    self.res.bad("decision-sent-for-invalid-answer/" + r.ans,
+                                 "step %d: stream %d: not reported and %r was sent" % (self.step_no, r.sid, sent))
             elif not got:
                 self.res.bad("invalid-answer-not-reported/" + r.ans,
                              "step %d: the attacher's answer for stream %d was %s; nothing was sent (fine) but "
@@ -563,8 +575,10 @@ class Run(object):
             return circ, "circuit-unknown-to-state", circ.id, False
         if kind == "noncirc":
             built = [m for m in live if m.status == "BUILT"]
-            vals = ["circuit-7", built[0].id if built else 7, {"id": 1}, ("x",)]
-            return vals[c % len(vals)], "non-circuit", None, False
+            vals = ["circuit-7", built[0].id if built else 7, {"id": 1}, ("x",), [], (), False, 0, ""]
+            v = vals[c % len(vals)]
+            # a falsy value is still not None: 'return candidates and candidates[0]' with no candidate
+            return v, ("non-circuit" if v else "non-circuit-falsy"), None, False
         if kind == "none":
             return None, "None", None, True
         if kind == "dna":
@@ -734,7 +748,9 @@ class Run(object):
             res.bad("decision-before-answer", text)
         elif ans.startswith("circuit-") and ans != "circuit-BUILT" and got:
             res.bad("attached-to-unusable-circuit/" + ans, text)
-        elif ans in ("non-circuit", "raises") and got:
+        elif ans == "non-circuit-falsy" and got == (0,):
+            res.bad("falsy-invalid-answer-taken-for-no-preference", text + " - only None means 'no preference'")
+        elif ans in ("non-circuit", "non-circuit-falsy", "raises") and got:
             res.bad("decision-sent-for-invalid-answer/" + ans, text)
         else:
             res.bad("wrong-decision/" + str(rec.ans), text)
@@ -1764,8 +1780,8 @@ def priority_cases(n, top):
 
 
 def run(ctx):
-    ctx.search("attacher", attacher_cases(), quick=800, thorough=4000)
-    ctx.search("via", via_cases(), quick=700, thorough=3000)
+    ctx.search("attacher", attacher_cases(), quick=700, thorough=4000)
+    ctx.search("via", via_cases(), quick=620, thorough=3000)
     ctx.enumerate("attacher", priority_cases(3, 3), name="priority-orders-3")
     if not ctx.quick():
         ctx.enumerate("attacher", priority_cases(4, 4), name="priority-orders-4")
@@ -1858,6 +1874,9 @@ MUTANTS = [
      '            d = self.protocol.set_conf("__LeaveStreamsUnattached", "1")\n',
      '            d = self.protocol.set_conf("__LeaveStreamsUnattached", "1")\n'
      "            d.addErrback(lambda f: (setattr(self, '_attacher', None), f)[1])\n"),
+    ("falsy-answer-taken-for-no-preference", "txtorcon/torstate.py",
+     "            if circ is None:\n                # tell Tor to do what it likes\n",
+     "            if not circ:\n                # tell Tor to do what it likes\n"),
     ("attachstream-names-the-wrong-stream", "txtorcon/torstate.py",
      '                    u"ATTACHSTREAM {} {}".format(stream.id, circ.id).encode("ascii")',
      '                    u"ATTACHSTREAM {} {}".format(circ.id, stream.id).encode("ascii")'),
